@@ -20,7 +20,7 @@ import (
 
 	"verif/harness/internal/gen"
 	"verif/harness/internal/stack"
-	"verif/harness/internal/vt"
+	"verif/harness/vt"
 )
 
 func TestMain(m *testing.M) { vt.Main(m) }
